@@ -341,6 +341,7 @@ type y4Case struct {
 	edits   int
 	seq     int
 	pending []y4Pending
+	rejected map[types.FileContractID]bool // rejected, root rows expired: the store holds no list any more
 }
 
 type y4Pending struct {
@@ -435,7 +436,9 @@ func (x *y4Case) lookTerm(id types.FileContractID, v y4View) (string, string) {
 }
 
 func (x *y4Case) check(id types.FileContractID, v y4View, want []types.Hash256, when string, midCommit bool) {
-	if v.c.RenewedTo != (types.FileContractID{}) {
+	if v.c.RenewedTo != (types.FileContractID{}) || x.rejected[id] {
+		// superseded by a renewal, or given up (formation never confirmed, rows expired): outside C03 as long
+		// as the host refuses to modify it, which rejected-contract-revised watches
 		return
 	}
 	n := x.cN(id)
@@ -526,7 +529,10 @@ func (x *y4Case) upload(n int) []types.Hash256 {
 	return out
 }
 
-func (x *y4Case) setup() {
+func (x *y4Case) setup() { x.setupWith(true) }
+
+// setupWith(false): the formation transaction stays in the pool and is never mined
+func (x *y4Case) setupWith(confirm bool) {
 	hn := x.h.hn
 	cm := hn.Chain
 	b := make([]byte, 32)
@@ -543,10 +549,12 @@ func (x *y4Case) setup() {
 	if err != nil {
 		x.t.Fatal("form:", err)
 	}
-	if _, err := cm.AddV2PoolTransactions(res.FormationSet.Basis, res.FormationSet.Transactions); err != nil {
-		x.t.Fatal(err)
+	if confirm {
+		if _, err := cm.AddV2PoolTransactions(res.FormationSet.Basis, res.FormationSet.Transactions); err != nil {
+			x.t.Fatal(err)
+		}
+		testutil.MineAndSync(x.t, hn, types.VoidAddress, 2)
 	}
-	testutil.MineAndSync(x.t, hn, types.VoidAddress, 2)
 	id := res.Contract.ID
 	x.ids = append(x.ids, id)
 	x.sop(0, fmt.Sprintf("Form2 %d %s", x.cN(id), x.rv2(res.Contract.Revision)), "ORes (Ok tt)")
@@ -1001,7 +1009,7 @@ func (x *y4Case) genPair(freed *bool) y4Pair {
 
 func newY4Case(t *testing.T, h *y4Host, em *verifEmitter, id int) *y4Case {
 	return &y4Case{h: h, t: t, em: em, rng: verifCaseRand(id), rootNum: map[types.Hash256]int{}, hashNum: map[types.Hash256]int{}, cidNum: map[types.FileContractID]int{},
-		known: map[types.Hash256]bool{}, ref: map[types.FileContractID][]types.Hash256{}, hit: map[string]bool{}}
+		known: map[types.Hash256]bool{}, ref: map[types.FileContractID][]types.Hash256{}, hit: map[string]bool{}, rejected: map[types.FileContractID]bool{}}
 }
 
 func TestVerifC03V4(t *testing.T) {
